@@ -28,7 +28,8 @@ Decided statically (DESIGN.md section 5, C19):
 import re
 
 from rkstatic.interp import ObjInterp, freeze, thaw
-from rkstatic.x_atomics import ATOMIC_INT, PLAIN_INT, CALLS, atomic_call, cfg_paths
+from rkstatic.x_atomics import init_exprs  # noqa: E402
+from rkstatic.x_atomics import ATOMIC_INT, PLAIN_INT, WIDTH64, CALLS, atomic_call, cfg_paths
 
 LEVEL = 'other'
 EXPLANATION = (
@@ -47,6 +48,7 @@ NS = 'rkcommon::utility::'
 OBSR, OBSV, TS = NS + 'Observer', NS + 'Observable', NS + 'TimeStamp'
 REG, UNREG, NOTIFY = OBSV + '::registerObserver', OBSV + '::removeObserver', OBSV + '::notifyObservers'
 RENEW, NEXT, GLOBAL = TS + '::renew', TS + '::nextValue', TS + '::global'
+COUNTER_Q = [GLOBAL]      # qualified name of the counter nextValue() draws from (found from its body, not assumed)
 WAS = OBSR + '::wasNotified'
 HDR_O, HDR_T, SRC_T = 'rkcommon/utility/Observer.h', 'rkcommon/utility/TimeStamp.h', 'rkcommon/utility/TimeStamp.cpp'
 OBJS = ('P', 'Q')
@@ -452,7 +454,7 @@ class ObsInterp(ObjInterp):
         if e[2] == self.F.observee['id']:
             if init is not None and init.get('kind') == 'CXXDefaultInitExpr':
                 fd = tu.node(e[2])
-                ks = tu.kids(fd) if fd is not None else []
+                ks = init_exprs(tu, fd) if fd is not None else []
                 v = self.pval(ks[-1], st, fr) if ks else 'undef'
             else:
                 v = self.pval(init, st, fr) if init is not None else 'undef'
@@ -1765,8 +1767,65 @@ def check_special(ctx, tu, F, analysed):
             elif op == 'move' and not info.get('has'):
                 ctx.ok(R4, inst, 'no move operation declared: moving falls back to the copy operation (checked there)', HDR_O, nontrivial=False)
             else:
-                ctx.violation(R4, inst, 'implicit memberwise %s of %s: %s' % (sm.replace('_', ' '), q.replace(NS, ''), why[cls]), HDR_O, key=key)
+                reason = why[cls]
+                if op == 'move':
+                    reason = {'observable': 'the list of registered observers moves to the other object while every observer still points at the '
+                                            'source: the new owner of the list is never the one they poll or unregister from, its destructor '
+                                            'orphans observers of the still-living source, and when the (now list-less) source dies first its '
+                                            'observers keep a dangling observee pointer',
+                              'observer': 'the moved-to observer shares the observee pointer but is not in the observable\'s list, and the '
+                                          'moved-from one stays registered: when the observable is destroyed the new observer is not orphaned '
+                                          'and dereferences a dangling pointer'}[cls]
+                ctx.violation(R4, inst, '%s memberwise %s of %s: %s' % ('defaulted / implicit', sm.replace('_', ' '), q.replace(NS, ''), reason),
+                              HDR_O, key=key)
     return n
+
+
+def list_handover(tu, f, F):
+    """a constructor that initialises its observer list from the source's list is consistent iff it (a) assigns `this` to the
+    observee of every element of its own list in a range-for executed on every path and (b) empties the source's list
+    (clear() on every path).  'ok' / 'no-repoint' / 'source-keeps' / 'unknown'"""
+    g = tu.cfg(f)
+    body = tu.body(f)
+    if g is None or body is None:
+        return 'unknown'
+    params = {p['id'] for p in f['params']}
+    repoint = False
+    for loop in [x for x in tu.walk(body) if x.get('kind') == 'CXXForRangeStmt']:
+        rng = next((x for x in tu.walk(loop) if x.get('kind') == 'VarDecl' and x.get('name', '').startswith('__range') and tu.kids(x)), None)
+        if rng is None or not list_expr(tu, tu.kids(rng)[-1], F, set()):
+            continue
+        lv = None
+        for x in tu.kids(loop):
+            if x.get('kind') == 'DeclStmt':
+                for v in tu.kids(x):
+                    if v.get('kind') == 'VarDecl' and not v.get('name', '').startswith('__'):
+                        lv = v
+        if lv is None:
+            continue
+        lbody = tu.kids(loop)[-1]
+        if any(z.get('kind') in ('BreakStmt', 'ReturnStmt', 'GotoStmt', 'CXXThrowExpr', 'ContinueStmt', 'IfStmt') for z in tu.walk(lbody)):
+            return 'unknown'
+        for x in tu.walk(lbody):
+            if x.get('kind') == 'BinaryOperator' and x.get('opcode') == '=':
+                lhs = tu.strip(tu.kids(x)[0], casts=True)
+                rhs = tu.strip(tu.kids(x)[1], casts=True)
+                if lhs.get('kind') == 'MemberExpr' and tu.sd(lhs).get('d') == F.observee['id'] and tu.kids(lhs) and \
+                        tu.ref_decl(tu.kids(lhs)[0]) == lv['id'] and rhs is not None and rhs.get('kind') == 'CXXThisExpr':
+                    repoint = True
+    cleared = False
+    for x in tu.walk(body):
+        if x.get('kind') == 'CXXMemberCallExpr' and tu.sd(x).get('q', '').split('::')[-1] == 'clear':
+            s_, obj, a_ = tu.call_parts(x)
+            o = tu.strip(obj, casts=True) if obj is not None else None
+            if o is not None and o.get('kind') == 'MemberExpr' and tu.sd(o).get('d') == F.observers['id'] and tu.kids(o) and \
+                    tu.ref_decl(tu.kids(o)[0]) in params and on_every_path(g, x['id']):
+                cleared = True
+    if not repoint:
+        return 'no-repoint'
+    if not cleared:
+        return 'source-keeps'
+    return 'ok'
 
 
 def observable_copy_ok(tu, f, F, kind):
@@ -1786,7 +1845,14 @@ def observable_copy_ok(tu, f, F, kind):
                     continue
                 src = any(y.get('kind') == 'MemberExpr' and tu.sd(y).get('d') == F.observers['id'] for y in tu.walk(init))
                 if src:
-                    return ('violation', 'copies-observers', 'the observer list is initialised from the source\'s list')
+                    hand = list_handover(tu, f, F)
+                    if hand == 'ok':
+                        return ('ok', 'takes over the observer list, re-points every taken observer at the new object and empties the source\'s list')
+                    if hand == 'unknown':
+                        return ('undecided', 'the observer list is taken over together with further list operations the analysis does not model')
+                    return ('violation', 'copies-observers', 'the observer list is initialised from the source\'s list%s'
+                            % (' and the taken observers are not re-pointed at the new object' if hand == 'no-repoint' else
+                               ' and the source keeps its copy of the list' if hand == 'source-keeps' else ''))
                 return ('undecided', 'initialiser of the observer list not understood')
     if refs:
         src_assign = False
@@ -1911,7 +1977,7 @@ def check_cas_loop(ctx, tu, f, g, R3, inst, kbase):
 
 
 def is_global(sd):
-    return sd.get('q') == GLOBAL
+    return sd.get('q') == COUNTER_Q[0]
 
 
 def check_timestamp(ctx, tu_src, tu_drv, lib_tus, analysed_names):
@@ -1941,28 +2007,81 @@ def check_timestamp(ctx, tu_src, tu_drv, lib_tus, analysed_names):
                       'another' % vals[0]['ct'], HDR_T, key='%s|%s|TimeStamp|value-not-atomic' % (R3, HDR_T))
     else:
         ctx.undecided(R3, 'TimeStamp::%s type' % vname, 'type `%s` not recognised' % vals[0]['ct'], HDR_T)
-    fnext = [f for f in tu_src.fns(q=NEXT, dep=False) if tu_src.cfg(f) is not None]
-    if len(fnext) != 1:
-        ctx.broken('R-C19-3: %s has %d bodies in %s' % (NEXT, len(fnext), SRC_T))
+    # nextValue may live in TimeStamp.cpp or inline in the header (then every unit has its body)
+    bodies = [(t, f) for t in (tu_src, tu_drv) for f in t.fns(q=NEXT, dep=False) if t.cfg(f) is not None]
+    if not bodies:
+        ctx.broken('R-C19-3: %s has no body in %s or the driver unit' % (NEXT, SRC_T))
         return n
-    fnext = fnext[0]
-    gct = None
-    for b, i, x in tu_src.cfg(fnext).stmts():
-        if x.get('kind') in ('DeclRefExpr', 'MemberExpr') and tu_src.sd(x).get('q') == GLOBAL:
-            gct = tu_src.sd(x).get('ct')
+    tnx, fnext = bodies[0]
+    in_header = len({id(t) for t, f in bodies}) > 1
+    # the counter: the object nextValue() increments / reads (found from the body, whatever it is called)
+    cref = None
+    for b_, i_, x in tnx.cfg(fnext).stmts():
+        if x.get('kind') in CALLS:
+            sd_, obj_, args_ = tnx.call_parts(x)
+            o_ = tnx.strip(obj_, casts=True) if obj_ is not None else None
+            if o_ is not None and re.match(r'std::(__atomic_base|atomic)<', sd_.get('q', '')) and o_.get('kind') in ('DeclRefExpr', 'MemberExpr') \
+                    and o_.get('referencedDecl', {}).get('kind', 'VarDecl') == 'VarDecl' and not tnx.enclosing_fn(tnx.node(o_.get('referencedDecl', {}).get('id')) or {'id': None}):
+                cref = cref or o_
+        elif x.get('kind') in ('UnaryOperator', 'CompoundAssignOperator') and x.get('opcode') in ('++', '--', '+=') and tnx.kids(x):
+            o_ = tnx.strip(tnx.kids(x)[0], casts=True)
+            if o_ is not None and o_.get('kind') == 'DeclRefExpr' and PLAIN_INT.match((tnx.sd(o_).get('ct') or '').replace('volatile ', '')):
+                vd_ = tnx.node(o_.get('referencedDecl', {}).get('id'))
+                if vd_ is not None and not tnx.enclosing_fn(vd_):
+                    cref = cref or o_
+    COUNTER_Q[0] = tnx.sd(cref).get('q') if cref is not None and tnx.sd(cref).get('q') else GLOBAL
+    cname = COUNTER_Q[0].replace(NS, '')
+    tu_src_real = tu_src
+    tu_src = tnx
+    gct = tnx.sd(cref).get('ct') if cref is not None else None
     n += 1
     if gct is None:
-        ctx.undecided(R3, 'TimeStamp::global type', 'nextValue does not refer to TimeStamp::global', tu_src.fn_loc(fnext))
+        ctx.undecided(R3, 'TimeStamp::global type', 'nextValue does not draw from a namespace-scope / class-static counter the analysis can '
+                      'identify', tnx.fn_loc(fnext))
         return n
     if ATOMIC_INT.match(gct):
-        ctx.ok(R3, 'TimeStamp::global type', gct, SRC_T)
+        ctx.ok(R3, '%s type' % cname, gct, tnx.fn_file(fnext))
     elif PLAIN_INT.match(gct.replace('volatile ', '')):
-        ctx.violation(R3, 'TimeStamp::global type', 'the global stamp counter has the non-atomic type `%s`: two threads can draw the same '
+        ctx.violation(R3, '%s type' % cname, 'the global stamp counter has the non-atomic type `%s`: two threads can draw the same '
                       'stamp' % gct, SRC_T, key='%s|%s|TimeStamp|global-not-atomic' % (R3, SRC_T))
         return n
     else:
-        ctx.undecided(R3, 'TimeStamp::global type', 'type `%s` not recognised' % gct, SRC_T)
+        ctx.undecided(R3, '%s type' % cname, 'type `%s` not recognised' % gct, SRC_T)
         return n
+    # ---- width: the counter (and the stamp it is stored in) must be able to count every stamp a history draws
+    n += 1
+    narrow = [(what, t_) for what, t_ in (('counter ' + cname, gct), ('stamp value TimeStamp::' + vname, vals[0]['ct'])) if not WIDTH64.match(t_)]
+    if narrow:
+        ctx.violation(R3, '%s width' % cname, 'the %s has type `%s`, fewer than 64 bits%s: after 2^32 stamps the counter wraps and hands out values '
+                      'that earlier stamps already carry, and a renewed stamp compares older than stamps taken long before '
+                      '(contract of the pinned tree: 64-bit size_t)' % (narrow[0][0], narrow[0][1],
+                                                                       '' if len(narrow) > 1 else ' while the other of the two is 64 bits wide'),
+                      HDR_T, key='%s|%s|TimeStamp|counter-too-narrow' % (R3, HDR_T))
+    else:
+        ctx.ok(R3, '%s width' % cname, 'counter %s and stamp value %s: 64 bits' % (gct, vals[0]['ct']), HDR_T)
+    # ---- one counter per process: not one per translation unit
+    n += 1
+    vd = tnx.node(cref.get('referencedDecl', {}).get('id'))
+    par = tnx.par(vd) if vd is not None else None
+    internal = False
+    if vd is not None and par is not None and par.get('kind') in ('NamespaceDecl', 'TranslationUnitDecl'):
+        anc, unnamed = par, False
+        while anc is not None:
+            if anc.get('kind') == 'NamespaceDecl' and not anc.get('name'):
+                unnamed = True
+            anc = tnx.par(anc)
+        internal = (vd.get('storageClass') == 'static' or unnamed) and not vd.get('inline')
+    if vd is None:
+        ctx.undecided(R3, '%s instance' % cname, 'declaration of the counter not found', tnx.fn_loc(fnext))
+    elif internal and in_header:
+        ctx.violation(R3, '%s instance' % cname, 'the counter `%s` has internal linkage (namespace-scope static / unnamed namespace) and is used by '
+                      'nextValue(), which is defined in a header: every translation unit that includes the header draws stamps from its own '
+                      'counter, so stamps drawn in different units of one process repeat and are not ordered (an Observer compiled in one unit '
+                      'compares against notifications stamped in another)' % cname, tnx.fn_loc(fnext),
+                      key='%s|%s|TimeStamp|counter-per-translation-unit' % (R3, tnx.fn_file(fnext)))
+    else:
+        ctx.ok(R3, '%s instance' % cname, 'one counter per process (%s)' % ('internal linkage, but used from one translation unit only' if internal
+                                                                          else 'external linkage / class static, single definition'), tnx.fn_loc(fnext))
     # ---- nextValue
     n += 1
     g = tu_src.cfg(fnext)
@@ -2040,6 +2159,7 @@ def check_timestamp(ctx, tu_src, tu_drv, lib_tus, analysed_names):
         else:
             ctx.ok(R3, inst, 'returns the result of exactly one atomic increment of global', tu_src.fn_loc(fnext))
     analysed_names.add(NEXT)
+    tu_src = tu_src_real
     # ---- members storing into value
     members = {}
     for t in (tu_src, tu_drv):
@@ -2097,7 +2217,7 @@ def check_timestamp(ctx, tu_src, tu_drv, lib_tus, analysed_names):
     n += 1
     bad = False
     sites = []
-    conv = {a[2] for b_, i_, x_ in tu_src.cfg(fnext).stmts() for a in [atomic_call(tu_src, x_, is_global)] if a and a[0] == 'rmw' and a[1] >= 1}
+    conv = {a[2] for b_, i_, x_ in tnx.cfg(fnext).stmts() for a in [atomic_call(tnx, x_, is_global)] if a and a[0] == 'rmw' and a[1] >= 1}
     conv0 = conv.pop() if len(conv) == 1 else None
     for t in [tu_src, tu_drv] + list(lib_tus):
         for f in t.functions.values():
@@ -2130,12 +2250,12 @@ def check_timestamp(ctx, tu_src, tu_drv, lib_tus, analysed_names):
                         bad = True
                         ctx.undecided(R3, 'who-writes TimeStamp::global', '%s applies %s to the global counter' % (f['q'], a[1]), t.loc(x))
                 elif x.get('kind') in ('BinaryOperator', 'CompoundAssignOperator', 'UnaryOperator') and x.get('opcode') in (
-                        '=', '+=', '-=', '++', '--') and t.kids(x) and t.sd(t.strip(t.kids(x)[0], casts=True)).get('q') == GLOBAL:
+                        '=', '+=', '-=', '++', '--') and t.kids(x) and t.sd(t.strip(t.kids(x)[0], casts=True)).get('q') == COUNTER_Q[0]:
                     bad = True
                     ctx.violation(R3, 'who-writes TimeStamp::global', '%s modifies the global stamp counter outside nextValue()' % f['q'], t.loc(x),
                                   key='%s|%s|%s|foreign-write' % (R3, t.fn_file(f), fn_name(f)))
                 elif x.get('kind') == 'UnaryOperator' and x.get('opcode') == '&' and t.kids(x) and \
-                        t.sd(t.strip(t.kids(x)[0], casts=True)).get('q') == GLOBAL:
+                        t.sd(t.strip(t.kids(x)[0], casts=True)).get('q') == COUNTER_Q[0]:
                     bad = True
                     ctx.undecided(R3, 'who-writes TimeStamp::global', '%s takes the address of the global counter' % f['q'], t.loc(x))
     if not bad:
@@ -2155,7 +2275,7 @@ def cached_source(t, f, ret):
     for x in t.walk(ret):
         if x.get('kind') == 'DeclRefExpr' and x.get('referencedDecl', {}).get('kind') == 'VarDecl':
             did = x['referencedDecl'].get('id')
-            if t.sd(x).get('q') == GLOBAL:
+            if t.sd(x).get('q') == COUNTER_Q[0]:
                 continue
             vd = t.node(did)
             static_local = vd is not None and (vd.get('storageClass') == 'static' or vd.get('tls'))
@@ -2165,7 +2285,7 @@ def cached_source(t, f, ret):
 
 
 def refs_global(t, f):
-    return any(x.get('id') and t.sd(x).get('q') == GLOBAL for x in t.walk(t.body(f))) if t.body(f) is not None else False
+    return any(x.get('id') and t.sd(x).get('q') == COUNTER_Q[0] for x in t.walk(t.body(f))) if t.body(f) is not None else False
 
 
 def ref_param_effect(t, callee, pidx):
@@ -2324,7 +2444,7 @@ def value_ops(t, f, VALUE, depth=0):
                     if e[3] == fname:
                         if init is not None and init.get('kind') == 'CXXDefaultInitExpr':
                             fd = t.node(e[2])
-                            init = t.kids(fd)[-1] if fd is not None and t.kids(fd) else None
+                            init = init_exprs(t, fd)[-1] if fd is not None and init_exprs(t, fd) else None
                         curs = settle(classify(init, env) if init is not None else 'other', curs)
                         continue
                     i0 = t.strip(init) if init is not None else None
